@@ -1,4 +1,4 @@
-/- C04 interleaving layer: kernel evaluation of the table check for the 24 configurations with
+/- C04 interleaving layer: kernel evaluation of the table check for the 36 configurations with
 Serialize = true, BlobTrashLifetime == 0 = true. -/
 import ArvVerif.Proofs.C04_RaceTable
 namespace ArvVerif.C04.Race
